@@ -1,7 +1,4 @@
-import Qfx.Drv.Util
-import Qfx.Drv.Val
-import Qfx.Drv.ValMon
-import Qfx.Drv.Sched
+import Qfx.Drv.All
 open Qfx.Drv
 
 def stripEol (s : String) : String :=
@@ -13,14 +10,12 @@ partial def loop (fam : Family) (hin : IO.FS.Stream) (hout : IO.FS.Stream) (s : 
   let w := words (stripEol line)
   match w with
   | [] => hout.putStrLn ""; loop fam hin hout s
+  | "#" :: "case" :: _ => hout.putStrLn (stripEol line); loop fam hin hout fam.init   -- new case: fresh model state
   | "#" :: _ => hout.putStrLn (stripEol line); loop fam hin hout s
   | _ =>
     let (s', out) := fam.step s w
     hout.putStrLn out
     loop fam hin hout s'
-
-def families : List (String × Family) :=
-  [("val", valFamily), ("val-mon", valMonFamily), ("sched", schedFamily)]
 
 def main (args : List String) : IO UInt32 := do
   match args with
